@@ -19,7 +19,7 @@ LEGEND = {
     'channel': 'sess s family keyseed carry keypaths (family = class*3+alg; keypaths bit0/bit1: sender/receiver C++ object keyed through its key constructor instead of set_key; class 0 one-shot 1 incremental 2 masked 3 siv 4 isap 5-8 the C++ classes; carry = trailing 0xFF bytes of the starting nonce); '
                'send s mlen adlen seed rngdead; deliver s which fault faultseed keep rngdead (rngdead 1 = the system entropy source fails while the packet is processed; fault 1 flip ct 2 flip tag 3 flip AD 4 truncate 5 extend 6 multi-bit 7 AD length 8 last tag bit); drop s which; '
                'rekey s who seed (who 0 sender 1 receiver 2 both); nonce s who kind arg seed (kind 0 set_counter 1 set_nonce(len)); sync s (datagram resynchronisation); '
-               'storm s packet what seed keypath (single-bit flips of 0 ct||tag 1 AD 2 nonce 3 key through fresh receiver objects); close s',
+               'hugead family seed (thorough: one packet over 2^32+11 bytes of associated data, then one AD byte changed); storm s packet what seed keypath (single-bit flips of 0 ct||tag 1 AD 2 nonce 3 key through fresh receiver objects); close s',
     'prng': 'knob.tape kind seed; knob.flash size page erase; knob.flip seed (which tape/feed byte the influence twins flip); boot load nvfault nvarg transient permfail; fetch n transient permfail; feed n seed; '
             'reseed transient permfail; save|load nvfault nvarg transient permfail (nvfault 1 read error 2 short read 3 write error 4 short write 5 torn write + power loss 14 NULL storage 15 NULL state); grandom n transient permfail (ascon_random); free',
     'cli': 'knob.chunk max bytes per read/write; knob.eintr every n-th call interrupted; knob.rounds PBKDF2 rounds (0 = real); file name len seed; enc|dec name pw flags keyfile-ending rngfail then two fault slots '
@@ -231,7 +231,7 @@ def check_C07(tier, seed):
                         'chunking of public API calls on several live objects'])
     o.assumptions = ['oracle is the library\'s own single-call form (one-shot function, or a fresh object driven by '
                      'one absorb and one squeeze); what function is computed is out of scope (C03/C04/C05 are N/A)',
-                     'absorb-after-squeeze is not generated (no single-call form defines it)']
+                     'XOF/XOFA sessions that go back from squeezing to absorbing are compared with the same session driven by one absorb and one squeeze call per round']
     n = 200000 if tier == 'quick' else 600000
     cfgs = [('asm', 'rel'), ('c64', 'rel'), ('c32', 'rel'), ('dxor', 'rel'), ('gen', 'rel')]
     for i, (be, fl) in enumerate(cfgs):
@@ -266,6 +266,10 @@ def check_C02(tier, seed):
     for i, (be, sh) in enumerate(cfgs):
         exe = world_exe('channel', be, sh, 'rel')
         o.add(D.run_batch(exe, n if i == 0 else n // 4 if i < 5 else n // 10, tier, seed, label='channel@%s-%d%d%d' % (be, *sh), crash_prop='C12'))
+    if tier == 'thorough' or os.environ.get('VERIF_HUGE'):
+        # one packet with 2^32+11 bytes of associated data per run (tens of seconds to minutes each): the 12 one-shot,
+        # SIV, ISAP and masked families
+        o.add(D.run_batch(world_exe('channel', 'asm', (4, 2, 4), 'rel'), 24, tier, seed, env={'ASIM_HUGE': '1'}, label='channel@asm-rel-hugead', crash_prop='C12', chunk=1))
     o.extra['distinct_states_measure'] = 'visited (event kind, family class, fault kind, accept/reject, length class) tuples'
     return o.finish()
 
@@ -434,8 +438,8 @@ def check_C17(tier, seed):
                         stub=['getrandom() (deterministic tape; only the masked classes draw from it)'])
     o.assumptions = ['the harness translation unit asim/worlds/cppobj.cpp instantiates every public member and overload; a compile error located in a /repo header is reported as a C17 violation',
                      'model = (key bytes, 128-bit nonce) or the call transcript, evaluated through the C API of the same library',
-                     'after clear() and after set_key with an undocumented length the object is re-keyed before further use (its content is documented as unknown)',
-                     'raw-pointer decrypt is not called with less than tag_size() bytes']
+                     'after clear() the object is re-keyed before further use; after a REJECTED set_key (returns false: "the key was not set") the object goes on under its old key in half of the cases',
+                     'after a failed byte_array decrypt the output array may be empty, all zero or untouched; bytes derived from the rejected packet are not accepted']
     exe, v = compile_obligation('C17', 'cppobj')
     if v:
         known, fixed = D.load_known()
